@@ -36,6 +36,7 @@ def showOut : Out → String
   | .noobj => "noobj"
   | .err => "err"
   | .crash => "crash"
+  | .alias => "alias"
   | .vals sh v => s!"ok {showVal (some (sh, v))}"
   | .shape sh => s!"ok {sh.toStr}"
   | .bool b => s!"ok {b}"
@@ -44,6 +45,18 @@ def showOut : Out → String
   | .all l => "ok " ++ ";".intercalate (l.map fun (i, v) => s!"{slotName i}={showVal v}")
 
 def t (h : Nat) : Nat := 3 * h
+
+def parseIds (tk : String) : Option (List Nat) :=
+  if !tk.startsWith "I:" then none else parseNatCsv (tk.drop 2).toString
+
+def parseProbe : String → Option Probe
+  | "sum0" => some .sum0
+  | "add" => some .add
+  | "matmul" => some .matmul
+  | "bsum" => some .bsum
+  | "tofloat" => some .tofloat
+  | "argmax0" => some .argmax0
+  | _ => none
 
 def parseOp (ws : List String) : Option Op :=
   match ws with
@@ -76,6 +89,23 @@ def parseOp (ws : List String) : Option Op :=
   | ["ptensor", p, g] => do pure (.ptensor (← p.toNat?) (t (← g.toNat?)))
   | ["piadd_value", p, g] => do pure (.piaddValue (← p.toNat?) (t (← g.toNat?)))
   | ["pdrop", p] => do pure (.pdrop (← p.toNat?))
+  | ["diadd", h, g] => do pure (.diadd (t (← h.toNat?)) (t (← g.toNat?)))
+  | ["disub", h, g] => do pure (.disub (t (← h.toNat?)) (t (← g.toNat?)))
+  | ["dimul", h, k] => do pure (.dimul (t (← h.toNat?)) (← k.toInt?))
+  | ["dslice_bw", gy, dim, off, gx] => do
+    pure (.dsliceBw (t (← gy.toNat?)) (← dim.toNat?) (← off.toNat?) (t (← gx.toNat?)))
+  | ["dpick_bw", gy, dim, ids, gx] => do
+    pure (.dpickBw (t (← gy.toNat?)) (← dim.toNat?) (← parseIds ids) (t (← gx.toNat?)))
+  | ["dflip_bw", gy, dim, gx] => do pure (.dflipBw (t (← gy.toNat?)) (← dim.toNat?) (t (← gx.toNat?)))
+  | ["dtranspose_bw", gy, gx] => do pure (.dtransposeBw (t (← gy.toNat?)) (t (← gx.toNat?)))
+  | ["dadd_bw", gy, ga, gb] => do pure (.daddBw (t (← gy.toNat?)) (t (← ga.toNat?)) (t (← gb.toNat?)))
+  | ["dsub_bw", gy, ga, gb] => do pure (.dsubBw (t (← gy.toNat?)) (t (← ga.toNat?)) (t (← gb.toNat?)))
+  | ["piadd_grad", p, g] => do pure (.piaddGrad (← p.toNat?) (t (← g.toNat?)))
+  | ["fcopy", h, g] => do pure (.fcopy (t (← h.toNat?)) (t (← g.toNat?)))
+  | ["fpositive", h, g] => do pure (.fpositive (t (← h.toNat?)) (t (← g.toNat?)))
+  | ["fconcat1", h, g, dim] => do pure (.fconcat1 (t (← h.toNat?)) (t (← g.toNat?)) (← dim.toNat?))
+  | ["fbconcat1", h, g] => do pure (.fbconcat1 (t (← h.toNat?)) (t (← g.toNat?)))
+  | ["probe", fn, h] => do pure (.probe (← parseProbe fn) (t (← h.toNat?)))
   | ["live"] => some .live
   | ["readall"] => some .readall
   | _ => none
